@@ -450,4 +450,166 @@ class CutoffNeighborsParticleType(CutoffNeighbors):
         return out.exc == "IOError" and "atom_type_number" in (out.msg or "")
 
 
-UNITS = [ReadNeighbors(), CutoffNeighbors(), CutoffNeighborsParticleType()]
+class NNearests(_Writer):
+    """Nnearests(snapshots, N, ppp, fnfile): per frame the header line and one row per particle `id N n_1 .. n_N` (np.array2string table):
+    the N other particles of smallest minimum-image distance, nearest first.  Requires 1 <= N <= nparticle - 1."""
+    qualname = "Nnearests"
+
+    def setup(self, ctx, case):
+        tr, p, ppp = self.base_setup(ctx, case)
+        Nn = ctx.int("Nn")
+        ctx.assume(Nn >= 1)
+        ctx.assume(sv.cmp("<=", Nn, sv.sub(tr.N, 1)))
+        snaps = tr.snapshots()
+        inp = dict(tr=tr, p=p, Nn=Nn, s=ctx.int("s"), i=ctx.int("i"), t=ctx.int("t"), u=ctx.int("u"), j=ctx.int("j"))
+        return [snaps, Nn, ppp, "nb.dat"], {}, inp
+
+    def clause_names(self, case):
+        return ["file-structure:per-frame-header-then-table-of-nparticle-rows", "row:id-and-count-columns", "row:self-is-among-the-N+1-smallest-and-sorts-first",
+                "row:listed-particles-are-others", "row:sorted-by-distance", "row:no-duplicates", "row:no-unlisted-particle-is-closer"]
+
+    def ensures(self, ctx, case, inp, out):
+        from pyvc.text import Block, Rows, Text, text_lines
+        tr, p, s, i, t, u, j, Nn = inp["tr"], inp["p"], inp["s"], inp["i"], inp["t"], inp["u"], inp["j"], inp["Nn"]
+        T, N = tr.T, tr.N
+        names = self.clause_names(case)
+        f = _written_file(out.state)
+        ok = f is not None and f.get("closed") and len(f["items"]) == 1 and isinstance(f["items"][0], Block)
+        rows = None
+        if ok:
+            outer = f["items"][0]
+            fi = outer.at(s)
+            ok = sv.is_conc(outer.lo) and outer.lo == 0 and A.dim_eq_syntactic(outer.hi, T) and len(fi) == 2 \
+                and text_lines([fi[0]]) == [["id", "cn", "neighborlist"], []] and isinstance(fi[1], Text)
+        if ok:
+            pieces = [x for x in fi[1].pieces if not (isinstance(x, str) and x.strip() == "")]
+            ok = len(pieces) == 1 and isinstance(pieces[0], Rows) and all((not isinstance(x, str)) or x.strip() == "" for x in fi[1].pieces) \
+                and isinstance(fi[1].pieces[-1], str) and fi[1].pieces[-1].endswith("\n")
+        if ok:
+            rows = pieces[0]
+            ok = A.dim_eq_syntactic(rows.n, N) and A.dim_eq_syntactic(rows.width, sv.add(2, Nn))
+        yield names[0], bool(ok)
+        if not ok:
+            return
+        ins = sv.and_(sv.cmp(">=", s, 0), sv.cmp("<", s, T), sv.cmp(">=", i, 0), sv.cmp("<", i, N))
+        yield names[1], sv.implies(ins, sv.and_(sv.cmp("==", rows.fn(i, 0), sv.add(i, 1)), sv.cmp("==", rows.fn(i, 1), Nn)))
+        # relational facts of the iteration that produced row i: the loop is summarised, so the row content is the closed form
+        # of the scatter store with the loop variable replaced by i; the argpartition / argsort applications inside are the lifted
+        # functions of that iteration.  We recover them from the qfacts of the discovery run and substitute (frame, particle).
+        qa = [q for q in out.state.qfacts if q[0] == "argpartition"]
+        qs = [q for q in out.state.qfacts if q[0] == "argsort"]
+        if not qa or not qs:
+            for nme in names[2:]:
+                yield nme, False
+            return
+        from pyvc.sigma import free_consts
+        _, m1, key1, P1, P1INV, kth = qa[0]
+        _, m2, key2, P2, P2INV = qs[0]
+        # the loop constants of the discovery run: those integer constants of P1(0) that are not symbols of this contract
+        mine = {"T", "N", "Nn", "s", "i", "t", "u", "j"} | {f"ppp_{k}" for k in range(tr.d)}
+        loopc = [c for c in free_consts(sv.znum(P1(0))) if z3.is_int(c) and c.decl().name() not in mine]
+        # order of creation: frame loop variable first, then the particle loop variable
+        loopc = sorted(loopc, key=lambda c: int(c.decl().name().split("!")[-1]) if c.decl().name().split("!")[-1].isdigit() else 0)
+        if len(loopc) != 2:
+            for nme in names[2:]:
+                yield nme, False
+            return
+        pairs = [(loopc[0], sv.znum(s)), (loopc[1], sv.znum(i))]
+        k1 = lambda x: _subst(key1(x), pairs)
+        Pa = lambda x: _subst(P1(x), pairs)
+        PaI = lambda x: _subst(P1INV(x), pairs)
+        k2 = lambda x: _subst(key2(x), pairs)
+        Pb = lambda x: _subst(P2(x), pairs)
+        PbI = lambda x: _subst(P2INV(x), pairs)
+        kth_ = _subst(kth, pairs)
+        dsp = lambda jj: dist_spec(tr, s, i, jj, p)
+        listed = lambda x: sv.sub(rows.fn(i, sv.add(2, x)), 1)           # zero-based particle at position x of row i
+        sel = lambda x: Pa(Pb(x))                                         # the sorted selection: position x -> particle
+
+        def nocoinc(jj):
+            return sv.implies(sv.and_(sv.cmp(">=", jj, 0), sv.cmp("<", jj, N), sv.cmp("!=", jj, i)), sv.cmp(">", dsp(jj), 0))
+
+        def part_le(a):     # key(P1(a)) <= key(P1(kth)) for 0 <= a <= kth
+            return sv.implies(sv.and_(sv.cmp("<=", 0, a), sv.cmp("<=", a, kth_)), sv.cmp("<=", k1(Pa(a)), k1(Pa(kth_))))
+
+        def part_ge(b):     # key(P1(kth)) <= key(P1(b)) for kth <= b < n
+            return sv.implies(sv.and_(sv.cmp("<=", kth_, b), sv.cmp("<", b, N)), sv.cmp("<=", k1(Pa(kth_)), k1(Pa(b))))
+
+        def sorted2(a, b):  # key2(P2(a)) <= key2(P2(b)) for 0 <= a <= b <= Nn
+            return sv.implies(sv.and_(sv.cmp("<=", 0, a), sv.cmp("<=", a, b), sv.cmp("<=", b, Nn)), sv.cmp("<=", k2(Pb(a)), k2(Pb(b))))
+        posi = PaI(i)                                                     # position of the centre in the partition
+        in_sel = sv.cmp("<=", posi, Nn)
+        selffirst = sv.implies(ins, sv.and_(in_sel, sv.cmp("==", sel(0), i)))
+        yield names[2], selffirst, {"assume": [part_le(0), part_le(posi), part_ge(posi), nocoinc(Pa(kth_)), nocoinc(Pa(0)), nocoinc(sel(0)),
+                                               sorted2(0, PbI(posi))]}
+        int_t = sv.and_(sv.cmp(">=", t, 0), sv.cmp("<", t, Nn))
+        int_u = sv.and_(sv.cmp(">=", u, 0), sv.cmp("<", u, Nn), sv.cmp("<=", t, u))
+        lt = listed(t)
+        yield names[3], sv.implies(sv.and_(ins, int_t), sv.and_(sv.cmp(">=", lt, 0), sv.cmp("<", lt, N), sv.cmp("!=", lt, i),
+                                                               sv.cmp("==", lt, sel(sv.add(t, 1))))), {"assume": [selffirst]}
+        yield names[4], sv.implies(sv.and_(ins, int_t, int_u), sv.cmp("<=", dsp(listed(t)), dsp(listed(u)))), {"assume": [sorted2(sv.add(t, 1), sv.add(u, 1))]}
+        yield names[5], sv.implies(sv.and_(ins, int_t, int_u, sv.cmp("!=", t, u)), sv.cmp("!=", listed(t), listed(u)))
+        # every particle j that is neither the centre nor listed is at least as far as every listed one
+        pj = PaI(j)                                                       # position of j in the partition
+        unl = sv.and_(sv.cmp(">=", j, 0), sv.cmp("<", j, N), sv.cmp("!=", j, i), sv.cmp(">", pj, Nn))     # j outside the first N+1 entries
+        yield names[6], sv.implies(sv.and_(ins, int_t, unl), sv.cmp("<=", dsp(listed(t)), dsp(j))), \
+            {"assume": [selffirst, part_le(Pb(sv.add(t, 1))), part_ge(pj), part_le(Nn), part_ge(Nn)]}
+
+    def replay(self, case, clause, model, seed):
+        return _replay_writer(self.qualname, int(case[2]), seed)
+
+
+UNITS = [ReadNeighbors(), CutoffNeighbors(), CutoffNeighborsParticleType(), NNearests()]
+
+
+def lemmas():
+    """lemmas over contracts"""
+    from contracts.C02 import _inv_spec, pbc_spec_row
+    from contracts.common import minimg_row
+    out = []
+    for d in (2, 3):
+        Hm = [[sv.real(f"H_{a}{b}") for b in range(d)] for a in range(d)]
+        det, G = _inv_spec(Hm, d)
+        p = [sv.integer(f"p_{k}") for k in range(d)]
+        zero = pbc_spec_row([0] * d, Hm, G, p, d)
+        # the fact used for the opaque minimum image: remove_pbc maps the zero row to the zero row (C02's formula)
+        out.append((f"lemma:d={d}:remove_pbc(0)=0", sv.and_(*[sv.cmp("==", z, 0) for z in zero])))
+        # symmetry of the global-cutoff relation: |D(i,j)| = |D(j,i)| from the oddness clause (e) of C02
+        r = [sv.real(f"r_{c}") for c in range(d)]
+        a = minimg_row(r, Hm, p, d)
+        b = minimg_row([sv.neg(x) for x in r], Hm, p, d)
+        odd = sv.and_(*[sv.cmp("==", b[c], sv.neg(a[c])) for c in range(d)])
+        n2a = _sum([sv.mul(x, x) for x in a])
+        n2b = _sum([sv.mul(x, x) for x in b])
+        out.append((f"lemma:d={d}:|D(i,j)|=|D(j,i)|-hence-the-global-cutoff-relation-is-symmetric", sv.implies(odd, sv.cmp("==", sv.sqrt(n2a), sv.sqrt(n2b)))))
+    return out
+
+
+import contracts.C02 as _C02   # noqa: E402  (the minimum-image contract the distances rely on is re-verified with this property)
+
+UNITS = UNITS + list(_C02.UNITS)
+
+
+def extra_checks(tier, seed, repo):
+    from pyvc.vc import prove_lemmas
+    return {"obligations": prove_lemmas("C05", _C02.lemmas() + lemmas())}
+
+
+MANIFEST = {
+    "text": "read_neighbors on a symbolic file (symbolic particle number, Nmax, file position; rows in any id order; neighbour-list and "
+            "weight headers): row id-1 = [min(cn,Nmax), v_1-shift .. ] zero padded, shift 1 only for neighbour lists, width 1+max cn or 1+Nmax, "
+            "integer dtype for neighbour lists, handle advanced by exactly 1+nparticle lines (consecutive frames from one open handle). "
+            "Nnearests / cutoffneighbors / cutoffneighbors_particletype (real ASTs; symbolic frame number, particle number, cells, mask, N, "
+            "cutoffs; d in {2,3}; type-pair matrix for K=1..3): the written file is, per frame, the header line and one row per particle in id "
+            "order; at an arbitrary frame and particle the row is [i+1, count, ids...] where the listed particles are exactly the other "
+            "particles within the (global / type-pair, inclusive) cutoff resp. the N others such that no unlisted particle is closer, "
+            "never the particle itself, without duplicates, ordered by non-decreasing minimum-image distance, count = number listed; "
+            "lemmas: the global-cutoff relation is symmetric (|D(i,j)| = |D(j,i)| from C02's oddness), remove_pbc(0) = 0; "
+            "the remove_pbc contract (C02) is re-verified in the same run. The written rows have the layout the reader's precondition "
+            "states (header words, id, count, values), so reading the written file back gives the zero-based lists per id.",
+    "note": "floats as reals (A1); token/file model of pyvc/text.py (assumed); relational contracts assumed for boolean-mask selection, "
+            "np.argsort, np.argpartition, ndarray.max, np.unique, np.array2string (pyvc/relops.py, pyvc/lib.py); distinct particles do not "
+            "coincide modulo the lattice and exact distance ties are excluded as in the statement; species are the same in every frame "
+            "for the type-pair variant; the minimum image enters the writer proofs as an uninterpreted function of (row, cell, mask) "
+            "with remove_pbc(0)=0 (C02)",
+}
